@@ -80,6 +80,9 @@ pub enum St {
     If(Ex, Vec<St>, Option<Vec<St>>),
     /// `make c get 0  jasi (c small pass n) start c get c add 1  body end`
     Loop { counter: String, n: u32, body: Vec<St> },
+    /// the same loop whose condition also evaluates a string expression (always true):
+    /// `jasi ((c small pass n) and (((cond).len() add 1) pass 0))` - temporaries made by the condition itself
+    LoopC { counter: String, n: u32, cond: Ex, body: Vec<St> },
     Block(Vec<St>),
     Func { name: String, params: Vec<String>, body: Vec<St> },
     Return(Option<Ex>),
@@ -169,6 +172,7 @@ pub fn st_to_json(s: &St) -> Value {
         St::Shout(e) => json!({"shout": ex_to_json(e)}),
         St::If(c, t, e) => json!({"if": [ex_to_json(c), block_to_json(t), e.as_ref().map(|e| block_to_json(e))]}),
         St::Loop { counter, n, body } => json!({"loop": [counter, n, block_to_json(body)]}),
+        St::LoopC { counter, n, cond, body } => json!({"loopc": [counter, n, ex_to_json(cond), block_to_json(body)]}),
         St::Block(b) => json!({"block": block_to_json(b)}),
         St::Func { name, params, body } => json!({"func": [name, params, block_to_json(body)]}),
         St::Return(e) => json!({"return": e.as_ref().map(ex_to_json)}),
@@ -194,6 +198,8 @@ pub fn st_from_json(j: &Value) -> St {
         St::If(ex_from_json(&x[0]), block_from_json(&x[1]), if x[2].is_null() { None } else { Some(block_from_json(&x[2])) })
     } else if let Some(x) = j.get("loop") {
         St::Loop { counter: s(&x[0]), n: x[1].as_u64().unwrap_or(1) as u32, body: block_from_json(&x[2]) }
+    } else if let Some(x) = j.get("loopc") {
+        St::LoopC { counter: s(&x[0]), n: x[1].as_u64().unwrap_or(1) as u32, cond: ex_from_json(&x[2]), body: block_from_json(&x[3]) }
     } else if let Some(x) = j.get("block") {
         St::Block(block_from_json(x))
     } else if let Some(x) = j.get("func") {
@@ -362,6 +368,18 @@ pub fn render_st(s: &St, d: usize, out: &mut String) {
             out.push_str(&format!("make {counter} get 0\n"));
             ind(out, d);
             out.push_str(&format!("jasi ({counter} small pass {n}) start\n"));
+            ind(out, d + 1);
+            out.push_str(&format!("{counter} get {counter} add 1\n"));
+            render_block(body, d + 1, out);
+            ind(out, d);
+            out.push_str("end\n");
+        }
+        St::LoopC { counter, n, cond, body } => {
+            out.push_str(&format!("make {counter} get 0\n"));
+            ind(out, d);
+            let mut c = String::new();
+            render_ex(cond, &mut c);
+            out.push_str(&format!("jasi (({counter} small pass {n}) and ((({c}).len() add 1) pass 0)) start\n"));
             ind(out, d + 1);
             out.push_str(&format!("{counter} get {counter} add 1\n"));
             render_block(body, d + 1, out);
@@ -965,7 +983,12 @@ impl Gen {
             let k = self.r.range(1, 4);
             let body = self.block(k, true);
             self.loop_depth -= 1;
-            out.push(St::Loop { counter, n, body });
+            if self.r.chance(40) {
+                let cond = self.str(1);
+                out.push(St::LoopC { counter, n, cond, body });
+            } else {
+                out.push(St::Loop { counter, n, body });
+            }
         } else if c < 83 {
             let n = self.r.range(1, 3);
             let b = self.block(n, false);
@@ -1412,7 +1435,7 @@ fn st_exprs(s: &St) -> Vec<&Ex> {
     match s {
         St::Make(_, e) | St::Assign(_, e) | St::Expr(e) | St::Shout(e) | St::Return(Some(e)) => vec![e],
         St::AssignIndex(t, e) => vec![t, e],
-        St::If(c, _, _) => vec![c],
+        St::If(c, _, _) | St::LoopC { cond: c, .. } => vec![c],
         _ => vec![],
     }
 }
@@ -1420,7 +1443,7 @@ fn st_exprs_mut(s: &mut St) -> Vec<&mut Ex> {
     match s {
         St::Make(_, e) | St::Assign(_, e) | St::Expr(e) | St::Shout(e) | St::Return(Some(e)) => vec![e],
         St::AssignIndex(t, e) => vec![t, e],
-        St::If(c, _, _) => vec![c],
+        St::If(c, _, _) | St::LoopC { cond: c, .. } => vec![c],
         _ => vec![],
     }
 }
@@ -1433,7 +1456,7 @@ fn st_blocks(s: &St) -> Vec<&Vec<St>> {
             }
             v
         }
-        St::Loop { body, .. } | St::Block(body) | St::Func { body, .. } => vec![body],
+        St::Loop { body, .. } | St::LoopC { body, .. } | St::Block(body) | St::Func { body, .. } => vec![body],
         _ => vec![],
     }
 }
@@ -1446,7 +1469,7 @@ fn st_blocks_mut(s: &mut St) -> Vec<&mut Vec<St>> {
             }
             v
         }
-        St::Loop { body, .. } | St::Block(body) | St::Func { body, .. } => vec![body],
+        St::Loop { body, .. } | St::LoopC { body, .. } | St::Block(body) | St::Func { body, .. } => vec![body],
         _ => vec![],
     }
 }
